@@ -35,7 +35,7 @@ RUNS = ['full', 'shuf', 'sub', 'sub2', 'qid', 'rid', 'rphys', 'add']
 
 def build(case):
     """writes the variant files of the data set; returns (dir, meta)"""
-    ds = es.make_dataset(case['ds_seed'], case['nq'], case.get('nlab', 200))
+    ds = es.make_dataset(case['ds_seed'], case['nq'], case.get('nlab', 200), dup=True)     # always with a duplicated contig (exact ties)
     rng = random.Random(case['ds_seed'] * 31 + 7)
     d = e2e.dataset_dir('c10_%d_%d' % (case['ds_seed'], case['nq']))
     qs = list(ds['queries']); refs = ds['refs']
